@@ -541,6 +541,32 @@ def run (ctx):
           good = defs.arity_ok(s, c)
           ctx.ob('R-DEF', s, "override of send() accepts send_error's call `%s`" % norm(c), good,
                  "compatible" if good else "%s.send%s cannot bind the call %s made by send_error: every error reply of this switch raises TypeError" % (sub.name, tuple(s.params), norm(c)), s, 'D7')
+  # ---- D8 a request the decoder gives up on is an invalid request: it is refused with an error, the connection is kept --------------
+  # (libopenflow's unpackers assert / underrun when the lengths inside a message do not add up - a get-config or barrier request
+  # whose header says 12.  An exception that leaves read() makes the I/O worker close the connection: "a dropped connection".)
+  from .. import framing
+  rf = repo.func('datapaths.switch:OFConnection.read'); ctx.analysed(rf)
+  L = framing.find_loop(repo, rf); g = L.g
+  ctx.floor('switch read loop: decode site', len(L.decode), 1)
+  for n, c in L.decode:
+    hs_ = g.handlers_for(n)
+    wide = [h_ for h_ in hs_ if h_.ast.type is None or any(nm_ in ('Exception', 'BaseException') for nm_ in ([norm(e_) for e_ in h_.ast.type.elts] if isinstance(h_.ast.type, ast.Tuple) else [norm(h_.ast.type)]))]
+    good = bool(wide) and not g.raises_out(n)
+    ctx.ob('R-CONTAIN', rf, "a failing decode of a request does not leave the read loop", good, "caught by `%s`" % wide[0].text(40) if good else
+           "`%s` is not inside a try that catches the decoder's AssertionError / UnderrunError / struct.error: a request whose lengths do not add up (a get-config request with length 12 in its header) "
+           "raises out of read(), the I/O worker closes the connection - the invalid request gets a dropped connection instead of OFPET_BAD_REQUEST" % norm(c)[:50], (rf.module, c), 'D8')
+    if not good: continue
+    def hookN (call, env=None): return (True, None) if call_name(call) == '_error_handler' else (False, None)
+    for h_ in wide:
+      ps_ = q.paths_under(repo, rf.module, g, q.Env({L.wlen: 12}, [], hookN), h_, [L.head, L.after, g.exit, g.raise_exit], rf.cls, limit=200, track_start=True)
+      if not ps_ or len(ps_) >= 200:
+        ctx.undecided('R-EFFECT', rf, "an undecodable request is refused with an error", "paths from the handler could not be enumerated", (rf.module, h_.ast), 'D8'); continue
+      silent = [p_ for p_, e_ in ps_ if not any(any(call_name(c_) in ('_error_handler', 'send_error', 'close') for c_ in q.node_calls(x_)) for x_ in p_)]
+      again = [p_ for p_, e_ in ps_ if p_[-1] is L.head and not any(x_ in [a_[0] for a_ in L.advance] for x_ in p_)]
+      ctx.ob('R-EFFECT', rf, "an undecodable request is refused with an error and skipped", not silent and not again,
+             "%d path(s) from the handler, all through the error handler and a consume" % len(ps_) if not silent and not again else
+             ("after the decoder failed a path goes on without calling the error handler: the request is neither answered nor refused" if silent else
+              "after the decoder failed a path returns to the loop head without consuming the message: it is decoded again, forever"), (rf.module, h_.ast), 'D8')
   # ---- mechanisms this property shares with others: their checks' rules about these functions are obligations here too
   ctx.include('C02', ['OFConnection.read'], 'requests reach the handlers through the switch-side read loop')
 
